@@ -28,12 +28,13 @@ type step struct {
 }
 
 type scenario struct {
-	ID    int    `json:"id"`
-	Site  string `json:"site"`
-	Fault string `json:"fault"`
-	Steps []step `json:"steps"`
-	Two   bool   `json:"two,omitempty"`   // thorough: two server URLs, both scripted alike
-	Multi bool   `json:"multi,omitempty"` // thorough: rewrite rule in append mode (several candidates on shared handles)
+	ID      int    `json:"id"`
+	Site    string `json:"site"`
+	Fault   string `json:"fault"`
+	Steps   []step `json:"steps"`
+	Two     bool   `json:"two,omitempty"`     // thorough: two server URLs, both scripted alike
+	HostToo bool   `json:"hostToo,omitempty"` // relay sites: host candidates are enabled as well (a host candidate precedes the relay candidate)
+	Multi   bool   `json:"multi,omitempty"`   // thorough: rewrite rule in append mode (several candidates on shared handles)
 }
 
 type pubEv struct {
@@ -235,6 +236,9 @@ func (r *runner) build() error {
 			Mode: ice.AddressRewriteReplace}))
 	case "relay", "relay-tcp":
 		ctypes = []ice.CandidateType{ice.CandidateTypeRelay}
+		if sc.HostToo {
+			ctypes = []ice.CandidateType{ice.CandidateTypeHost, ice.CandidateTypeRelay}
+		}
 		tr := "udp"
 		if sc.Site == "relay-tcp" {
 			tr = "tcp"
